@@ -652,6 +652,12 @@ func (c *wsConn) removeCount(s *Subscription, direct bool, sent bool, count int,
 	}
 
 	if direct {
+		// A failed access re-check removes all direct subscriptions, also
+		// the one of a request that is still in progress and will release
+		// its own when it gets the same access error.
+		if count > s.direct {
+			count = s.direct
+		}
 		s.direct -= count
 	} else {
 		s.indirect -= count
